@@ -230,7 +230,7 @@ def run(tier, seed):
     # the trace validation uses; two controls that MUST be violated
     cfgs = ["SigAggMC_quick.cfg", "SigAggMC_n3t2.cfg", "SigAggMC_free.cfg"]
     if thorough:
-        cfgs += ["SigAggMC_n5t4.cfg", "SigAggMC_n5t3.cfg"]
+        cfgs += ["SigAggMC_n4t3m.cfg", "SigAggMC_n5t4.cfg", "SigAggMC_n5t3.cfg"]
     for cfg in cfgs:
         r = vlib.tlc(PID, FAMILY, "SigAggMC", cfg, timeout=1500)
         vlib.require_mc_ok(r, cfg)
